@@ -169,8 +169,8 @@ def ts_case(rng, count, huge=False):
     for i in range(count):
         u = i % 65 if i < 200 else rng.choice([rng.randint(0, 64), rng.randint(0, 10**9), 10**9, 4, 0, rng.randint(10, 99), rng.randint(100, 9999)]
                                                   + ([rng.randint(10**20, 10**40)] if huge else []))
-        e = [None] + list(range(17))
-        ex = e[i % 18] if i < 400 else rng.choice(e)
+        e = [None] + list(range(17)) + [17, 23, 24, 30, 31, 32, 33, 52, 53, 62, 63]  # every exponent Moonscraper writes, and the rest up to 63
+        ex = e[i % len(e)] if i < 400 else rng.choice(e)
         timesigs.append([t, u, ex])
         if i % 3 == 0:
             anchors.append([t, rng.choice([0, 1, 999999, 10**6, rng.randint(0, 10**13), 10**13, rng.randint(10**13, 10**16)])])
